@@ -2028,7 +2028,16 @@ PPL::MIP_Problem::solve_mip(bool& have_incumbent_solution,
   PPL_DIRTY_TEMP_COEFFICIENT(tmp_coeff2);
 
   if (mip_status == UNBOUNDED_MIP_PROBLEM) {
-    p = mip.last_generator;
+    // The LP relaxation is unbounded. Since all the coefficients are
+    // rational, the MIP problem is unbounded too if and only if it is
+    // satisfiable: hence we only have to look for a feasible point,
+    // so that a call to `feasible_point' will be successful.
+    // NOTE: is_mip_satisfiable() may modify `p' even when returning false.
+    if (!is_mip_satisfiable(mip, i_vars, p)) {
+      return UNFEASIBLE_MIP_PROBLEM;
+    }
+    incumbent_solution_point = p;
+    return UNBOUNDED_MIP_PROBLEM;
   }
   else {
     PPL_ASSERT(mip_status == OPTIMIZED_MIP_PROBLEM);
@@ -2066,13 +2075,6 @@ PPL::MIP_Problem::solve_mip(bool& have_incumbent_solution,
   }
   if (found_satisfiable_generator) {
     // All the coordinates of `point' are satisfiable.
-    if (mip_status == UNBOUNDED_MIP_PROBLEM) {
-      // This is a point that belongs to the MIP_Problem.
-      // In this way we are sure that we will return every time
-      // a feasible point if requested by the user.
-      incumbent_solution_point = p;
-      return mip_status;
-    }
     if (!have_incumbent_solution
         || (mip.optimization_mode() == MAXIMIZATION
             && tmp_rational > incumbent_solution_value)
